@@ -68,7 +68,7 @@ def run(ctx):
             head = "position startpos" if (f == START and use_startpos) else "position fen " + f
             return head + (" moves " + " ".join(moves) if moves else "")
         lines = []
-        kind = gi % 6 if gi >= len(reg) else 0
+        kind = gi % 8 if gi >= len(reg) else 0
         k = max(1, len(ms) // 2)
         if kind == 0:
             lines = [poscmd(fen, ms)]
@@ -82,8 +82,17 @@ def run(ctx):
             lines = [poscmd(fen, corrupt(ms, rng)), "isready", poscmd(fen, ms), poscmd(fen, corrupt(ms, rng))]
         elif kind == 4:      # the same game extended after ucinewgame (as a GUI replaying a game does)
             lines = [poscmd(fen, ms[:k]), "ucinewgame", poscmd(fen, ms)]
-        else:                # extended move by move, then a new game from the same start
+        elif kind == 5:      # extended move by move, then a new game from the same start
             lines = [poscmd(fen, ms[:k]), poscmd(fen, ms), "ucinewgame", poscmd(fen, ms[:1]), poscmd(fen, ms[:k] + ms[k:k + 1])]
+        elif kind == 6:      # an EXTENSION of the game on the board that goes wrong after some legal new moves is refused as a whole; the
+            # right extension sent afterwards must be accepted from the position that stayed in force (seeded change r6C08: an
+            # incremental `position` that rolls the board back but keeps its own record of the moves played)
+            bad = rng.choice(["0000", ms[k][2:4] + ms[k][0:2] if k < len(ms) else "a1a1", "a1a1"])
+            lines = [poscmd(fen, ms[:k]), poscmd(fen, ms[:k + 2] + [bad]), poscmd(fen, ms[:k + 2])]
+        else:                # the same, then the game shrinks again and is extended differently
+            bad = rng.choice(["0000", "h9h8", "e1e9"])
+            lines = [poscmd(fen, ms[:k]), poscmd(fen, ms[:k + 1] + [bad] + ms[k + 1:k + 2]), poscmd(fen, ms[:k + 3]), poscmd(fen, ms[:k + 1]),
+                     poscmd(fen, ms[:k + 1] + ms[k + 1:k + 2] + [bad]), poscmd(fen, ms)]
         sessions.append(lines)
     # engine over the pipe
     eng_states = []
